@@ -243,6 +243,52 @@ Example C06_ssh_bytes_example :
 Proof. exact ex_files_ok. Qed.
 Print Assumptions C06_ssh_bytes_example.
 
+(* what the key parser refuses, and what that means for the file.  The model of ssh.ParsePublicKey + attribute
+   builder returns a key or an error on EVERY octet string - never a panic (unless the fallback `other` panics) -
+   and so do the modelled line parsers over any key parser that never panics. *)
+Theorem C06_key_parser_never_panics : forall point_ok other,
+  (forall b s, other b <> Panic s) ->
+  (forall blob s, key_of_model point_ok other blob <> Panic s) /\
+  (forall chunk, is_panic (ssh_auth_lib (key_of_model point_ok other) chunk) = false /\
+                 is_panic (ssh_hosts_lib (key_of_model point_ok other) chunk) = false).
+Proof. exact key_parser_never_panics. Qed.
+Print Assumptions C06_key_parser_never_panics.
+
+(* any octets after the last field of a well-formed blob: refused, for every key and every junk *)
+Theorem C06_key_blob_trailing_rejected : forall point_ok other k x r, skey_ok point_ok k = true ->
+  key_of_model point_ok other (blob_enc k ++ x :: r) = Err "ssh: trailing junk in public key".
+Proof. exact key_of_model_trailing. Qed.
+Print Assumptions C06_key_blob_trailing_rejected.
+
+(* a well-formed known_hosts line whose key blob the key parser refuses is refused with that error (for EVERY key
+   parser: the line parser hands it exactly the decoded base64 field) ... *)
+Theorem C06_known_hosts_line_rejected : forall key_of e key err,
+  hosts_entry_ok e = true ->
+  Base64.std_decode Base64.Std (he_b64 e) = Some key -> key_of key = Err err ->
+  ssh_hosts_lib key_of (hosts_text e) = Err err.
+Proof. exact hosts_lib_rejected. Qed.
+Print Assumptions C06_known_hosts_line_rejected.
+
+(* ... and a known_hosts file that holds such a line (LF or CRLF), whatever its other lines are, is an error as a
+   whole - never a partial listing *)
+Theorem C06_known_hosts_bad_blob_is_error : forall key_of data e key err (crlf : bool),
+  (forall b s, key_of b <> Panic s) ->
+  In (hosts_text e ++ (if crlf then [13] else [])) (split_lf data) ->
+  hosts_entry_ok e = true -> Base64.std_decode Base64.Std (he_b64 e) = Some key -> key_of key = Err err ->
+  exists e', known_hosts (ssh_hosts_lib key_of) data = Err e'.
+Proof. exact known_hosts_bad_blob. Qed.
+Print Assumptions C06_known_hosts_bad_blob_is_error.
+
+(* instance, about the bytes: an entry whose base64 field is a well-formed key blob followed by any octets *)
+Theorem C06_known_hosts_trailing_is_error : forall point_ok other data k junk e (crlf : bool),
+  (forall b s, other b <> Panic s) ->
+  In (hosts_text e ++ (if crlf then [13] else [])) (split_lf data) ->
+  skey_ok point_ok k = true -> junk <> [] -> bytes_ok junk = true ->
+  hosts_entry_ok e = true -> he_b64 e = Base64.encode Base64.Std (blob_enc k ++ junk) ->
+  exists e', known_hosts (ssh_hosts_lib (key_of_model point_ok other)) data = Err e'.
+Proof. exact known_hosts_trailing_is_error. Qed.
+Print Assumptions C06_known_hosts_trailing_is_error.
+
 (* ---------------- PEM bundles ---------------- *)
 
 (* A bundle is text, block, text, block, ..., text (pem_render); bundle_ok: no piece of text brings a
